@@ -5,10 +5,12 @@
    -----------------------------------      ------------------------------------
    inputs(func(v) {                          dispatcher program counter [dpc]
      if broken != 0 { return }               DCheck i   (skip -> st i := Skipped)
-     if sema != nil { sema.Acquire(ctx,1) }  DAcq i     (blocks while held = bound;
-                                                         a cancelled ctx makes it
-                                                         FAIL and the error is
-                                                         ignored: no token taken)
+     if sema != nil {
+       if sema.Acquire(ctx,1) != nil {       DAcq i     (blocks while held = bound;
+         broken = 1; return } }                          a cancelled ctx makes it FAIL:
+                                                         no token, broken := 1, skip)
+     if sema != nil && broken != 0 {         DRecheck i (broken set while waiting:
+       sema.Release(1); return }                         token given back, skip)
      wg.Add(1); go func() {                  DSpawn i   (wg+1, st i := Spawned)
         ex := f.Call(...)                    worker: Spawned -> Running 0 -> ...
                                                      Running k emits output k
@@ -25,7 +27,10 @@
    every goroutine schedule.  A callback is abstracted to its behaviour on input
    number i: the values it outputs and how it ends.
 
-   Two repairs can be switched on (both off = the code as it is):
+   The dispatcher has two switches, both ON in the code as it is now
+   ([faithful]); they were added by the fix commits for the findings
+   C20 peach1-break-before-last and C19 peach-bounded-cancel, and the general
+   theorems are proved for every setting:
      fix_recheck : test [broken] again after Acquire returned (and give the token back)
      fix_acqerr  : honour the Acquire error (stop dispatching)                      *)
 From verif Require Import lib.Base.
@@ -54,6 +59,9 @@ Inductive dpc :=
 | DWait | DDone.
 
 Record config := mkCfg { bound : option nat; fix_recheck : bool; fix_acqerr : bool }.
+
+(* the code as it is: both repairs in *)
+Definition faithful (b : option nat) : config := mkCfg b true true.
 
 Record state := mkSt {
   pc : dpc;
